@@ -378,13 +378,14 @@ CHECKS = {
               "rational cell/cutoff combinations x 6 interpolations; the real SMatrixArray._reduce_to_waves on an index-coded array for "
               "n in {4, 6, 8, 9} and corners over the same range; and the scenario space enumerated by TLC (potential none / atoms / "
               "frozen phonons x 6 aberration sets x 5 scan kinds incl. positions outside and spanning more than the cell x "
-              "interpolation (1..3, 1..2) x downsample x lazy x batching = 4320 cases, quick: seeded 70) run through SMatrix.reduce / "
+              "interpolation (1..3, 1..2) x downsample x lazy x batching = 4320 cases; quick: 110, of which one per stratum potential x "
+              "downsample x batching x lazy x {uninterpolated, interpolated} so every reduction path is run at every seed) run through SMatrix.reduce / "
               "SMatrixArray.reduce and compared with Probe.multislice / Probe.scan (no interpolation) or the tiled small-cell probe "
               "sent through Waves.multislice and windowed (interpolation). PrismTrace.tla decides waves, detector values, shapes and "
               "lazy == eager."),
         technique="TLA+ model of the window extraction checked by TLC against the property-level spec; TLA+ scenario enumeration and acceptance predicate over PRISM-vs-multislice differential runs; TLC trace validation",
         design_ref="DESIGN.md 5 C06",
-        note=NOTE_COMMON + " With interpolation only the annular detector is compared (the statement promises the window probes); rint ties at half pixels are avoided by the chosen positions. Tolerance 5e-5.",
+        note=NOTE_COMMON + " With interpolation only the annular detector is compared (the statement promises the window probes); without interpolation an annular detector, a FlexibleAnnularDetector and a PixelatedDetector(max_angle='cutoff') with default limits are compared with Probe.scan (bin count / pattern size included). rint ties at half pixels are avoided by the chosen positions. Tolerance 5e-5.",
     ),
     "C39": dict(
         text=("Tilt.tla: a tilted propagation through slices dz_1..dz_K is the untilted one shifted by tan(t) * sum(dz) per axis; "
@@ -405,8 +406,9 @@ CHECKS = {
     ),
     "C16": dict(
         text=("Resample.tla: total intensity per interpolated diffraction pattern is preserved (zero stays zero, result finite); "
-              "Images.interpolate(fft): target grid for a requested sampling = ceil(n d / d') in exact rationals, when that is the "
-              "image's own grid the input is returned unchanged, the mean of every image is preserved; gaussian_source_size then "
+              "Images.interpolate(fft): a requested gpts is delivered, a result on the image's own grid is the input unchanged, the mean "
+              "of every image is preserved (which grid a requested sampling maps to is not judged: the repository's tests pin the "
+              "floating-point ceil, which for the image's own sampling can give one point more); gaussian_source_size then "
               "integrate_radial == integrate_radial then gaussian_filter. ResampleModel.tla transcribes which ensemble / base axis "
               "gets which sigma in pixels on both routes (_gaussian_source_size walks the ensemble axes; integration moves the scan "
               "axes behind the other ensemble axes; Images.gaussian_filter smooths the base axes) and TLC checks they agree for 6 "
@@ -414,7 +416,7 @@ CHECKS = {
               "samplings / gpts smaller, larger, same x 4 grids x all-zero member x lazy; image targets same gpts / own sampling / "
               "gpts smaller, larger, mixed / finer, coarser sampling x 4 grids x real, complex x lazy; source-size layouts ss / oss / "
               "sos / sso x sigma small / anisotropic / wider than the scan x 3 integration ranges x lazy), quick: seeded 120."),
-        technique="TLA+ model of the sigma-to-axis bookkeeping checked by TLC; TLA+ scenario enumeration and acceptance predicate with exact rational target grids; TLC trace validation of runs on real measurement objects",
+        technique="TLA+ model of the sigma-to-axis bookkeeping checked by TLC; TLA+ scenario enumeration and acceptance predicate; TLC trace validation of runs on real measurement objects",
         design_ref="DESIGN.md 5 C16",
         note=NOTE_COMMON + " Tolerance 5e-5. The target-grid clause for a requested sampling is only applied where the statement needs it (same grid); spline interpolation is outside the statement.",
     ),
